@@ -56,6 +56,13 @@ pub fn deviation(cfg: &mut Cfg, rep: &mut Report) {
                     let maxv = 1000i64;
                     let want = 10. * f64::log10((maxv as f64) * (maxv as f64) / (sq as f64 / n as f64));
                     if bits(va.peak_signal_to_noise_ratio(&vb, maxv)) != Some(want.to_bits()) { bad.push("psnr != 10 log10(maxv^2/mse)".into()); }
+                    // a narrow element type with a peak value whose square does not fit it (16-bit samples held in i32): maxv is
+                    // converted to f64 before it is squared
+                    if sq < (1i64 << 30) {
+                        let (a32, b32) = (va.mapv(|x| x as i32), vb.mapv(|x| x as i32));
+                        let want32 = 10. * f64::log10(65535f64 * 65535f64 / (sq as f64 / n as f64));
+                        if bits(a32.peak_signal_to_noise_ratio(&b32, 65535i32)) != Some(want32.to_bits()) { bad.push("psnr (i32, maxv = 65535) != 10 log10(maxv^2/mse)".into()); }
+                    }
                     // zero for identical arguments
                     if va.sq_l2_dist(&va) != Ok(0) || va.l1_dist(&va) != Ok(0) || va.linf_dist(&va) != Ok(0) || va.count_eq(&va) != Ok(n) { bad.push("distance of an array to itself is not zero".into()); }
                     bad
